@@ -357,7 +357,7 @@ impl FilesParagraph {
         let text = match license {
             License::Name(name) => name.to_string(),
             License::Named(name, text) => format!("{}\n{}", name, text),
-            License::Text(text) => text.to_string(),
+            License::Text(text) => format!("\n{}", text),
         };
         self.0.set("License", &text);
     }
